@@ -3,7 +3,7 @@ import ast, math, os, time
 import numpy as np, scipy.sparse as sp
 from sklearn.metrics import pairwise_distances
 from vp.coqrun import fl, zl, flist, zlist, clist, parse_zlist
-from vp import srcparams
+from vp import srcparams, link
 import umap, umap.umap_ as U, umap.distances as UD
 
 GTOL = 1e-5        # update graph vs fresh-fit graph (same float32 code on the same table: expected identical)
@@ -327,6 +327,11 @@ def few_threads():
 def run(ctx):
     few_threads()
     ctx.check_proofs(["prop/P_C11.v"])
+    # translation tie: init_update regenerated from the current source (py2coq); link theorem (coq/link/L_update.v): for every
+    # rectangular table, every rectangular index array with as many rows and every 0 <= n_original_samples <= rows, over every Num,
+    # the in-place loop of the source returns exactly M_update.init_update (reads of `current_init[indices[i, j], d]` only hit the
+    # first n_original_samples rows, which the loop never writes)
+    link.check(ctx, "umap_update", {"init_update": "src_init_update_eq"})
     flags, ok = source_flags(ctx)
     ctx.extra["source_flags"] = dict(update_re_resolves_n_neighbors=flags[0], update_applies_disconnection_distance=flags[1], read_from_source=ok)
     if not all(flags):
